@@ -603,7 +603,14 @@ class Expander:
                 binding = self.bind(cfn, call, self_expr, self_expr is not None or self._is_static(cfn))
                 env = {p: v for p, v in binding.items()}
                 body = [x for x in cfn.body if not (isinstance(x, ast.Expr) and isinstance(x.value, ast.Constant))]
-                # parameters used more than once with a non-trivial argument are still substituted (analysis only)
+                # an argument that contains a call (a draw, an allocation ...) must be evaluated once: if its parameter is read more than
+                # once, or inside a comprehension / lambda of the callee, the call is expanded as statements (argument bound first)
+                for p_, v_ in binding.items():
+                    if isinstance(v_, ast.AST) and any(isinstance(x, ast.Call) for x in ast.walk(v_)):
+                        uses = [x for st_ in body for x in ast.walk(st_) if isinstance(x, ast.Name) and x.id == p_ and isinstance(x.ctx, ast.Load)]
+                        nested = any(isinstance(c_, (ast.ListComp, ast.SetComp, ast.DictComp, ast.GeneratorExp, ast.Lambda)) and any(u is y for u in uses for y in ast.walk(c_)) for st_ in body for c_ in ast.walk(st_))
+                        if len(uses) > 1 or nested:
+                            raise NotInlinable("argument with a call is used repeatedly")
                 expr = _as_expression(body, env)
                 if expr is not None and not _contains(expr, (ast.Yield, ast.YieldFrom, ast.Await)):
                     if self_expr is not None and not self._is_static(cfn):
